@@ -106,7 +106,9 @@ def c01_jobs(tier, repo):
     if tier == "thorough":
         k3 += [(4, 13), (6, 29), (6, 93)]
     for fam, off in k3:
-        jobs.append(_pj("C01", "shape", fam, off, 3, ["--max-depth=4"] if tier == "quick" else []))
+        # offset 0 has far fewer shapes per depth than the chain-shaped universes behind a long common prefix
+        d = 7 if off == 0 else 6
+        jobs.append(_pj("C01", "shape", fam, off, 3, ["--max-depth=%d" % d] if tier == "quick" else []))
     # (ii) payload combinations
     for fam, off in ((4, 0), (4, 8), (6, 0), (6, 62)):
         jobs.append(_pj("C01", "payload", fam, off, 3, ["--maxper=1"]))
@@ -133,7 +135,7 @@ SPECS["C01"] = CheckSpec(
     assumptions=["records have host bits zero and lengths within the address width (the property's own scope)",
                  "the k-bit universes at offsets on both sides of every 32-bit word boundary exercise every branch of "
                  "the bit extraction; values outside these alphabets are not enumerated",
-                 "k=3 universes are explored to a depth bound (quick) or to the deadline (thorough); the fixed point "
+                 "k=3 universes are explored to depth 6-7 (quick) or to the deadline (thorough); the fixed point "
                  "is reached for k=2"],
     counters_map={"executions": ["transitions"], "distinct": ["states"]},
     level_text="Explicit-state model checking of the real trie: every add/remove history over a small prefix universe "
@@ -423,10 +425,10 @@ C10_BUILD = dict(flavour="asan", name="spki_seqx", harness_srcs=["spki_seqx.c"],
 def c10_jobs(tier, repo):
     q = tier == "quick"
     cfgs = [([], "near-twin alphabet, fixed point"),
-            (["--fill=31,33,70", "--max-depth=%d" % (5 if q else 7)], "with filler levels 31/33/70"),
-            (["--small", "--fill=33,70", "--max-depth=%d" % (6 if q else 8)], "5 keys, filler levels 33/70"),
-            (["--small", "--no-reload", "--fill=33", "--max-depth=%d" % (7 if q else 9)], "5 keys, no reload, filler 33"),
-            (["--small", "--fill=130", "--max-depth=%d" % (5 if q else 7)], "5 keys, filler level 130 (two splits)")]
+            (["--fill=0,31,33,70", "--max-depth=%d" % (5 if q else 7)], "filler levels 0/31/33/70"),
+            (["--small", "--fill=0,12,33,70", "--max-depth=%d" % (6 if q else 8)], "5 keys, filler levels 0/12/33/70 (turn-around inside a shrink)"),
+            (["--small", "--no-reload", "--fill=0,10,70", "--max-depth=%d" % (7 if q else 9)], "5 keys, no reload, filler levels 0/10/70"),
+            (["--small", "--fill=0,20,130", "--max-depth=%d" % (5 if q else 7)], "5 keys, filler levels 0/20/130 (two splits)")]
     return [Job("spki_seqx", C10_BUILD, a, l) for a, l in cfgs]
 
 
@@ -435,8 +437,9 @@ SPECS["C10"] = CheckSpec(
     rule="explicit-state BFS over histories of add / remove (6 near-twin keys: two keys under one (AS,SKI), same key "
          "under two sources, two AS numbers brute-forced to share a bucket of the 64-bucket table and to part after "
          "the first split, a third AS, a second SKI), remove-by-source (3 sources), reload (copy-except-source into a "
-         "fresh table + swap + notify-diff, the sequence rtr_sync performs), bulk fill to 31/33/70/130 filler keys and "
-         "unfill (grow, shrink and mid-split states of the linear hash); in every distinct state spki_table_get_all for "
+         "fresh table + swap + notify-diff, the sequence rtr_sync performs), setting the number of filler keys to "
+         "levels such as 0/12/33/70/130 in any order (grow, shrink, mid-split states of the linear hash and turning "
+         "around inside a resize); in every distinct state spki_table_get_all for "
          "every (AS,SKI) and spki_table_search_by_ski for every SKI are compared with the model as multisets, return "
          "codes with set semantics, and a mirror set driven only by the update callbacks with the contents; state key = "
          "stored list order + hash geometry + model + mirror",
